@@ -1419,7 +1419,45 @@ func (fc *FnCtx) doSelect(x *ssa.Select) {
 	}
 }
 
+// loopCaptureCheck: a goroutine started inside a loop must not capture a
+// variable that lives across iterations and is reassigned by the loop (with
+// per-loop loop variables - every Go version this module declares - all the
+// goroutines would see the value of a later iteration).  Structural, automatic.
+func (fc *FnCtx) loopCaptureCheck(x *ssa.Go) {
+	if fc.contract == nil {
+		return
+	}
+	mc, ok := x.Call.Value.(*ssa.MakeClosure)
+	if !ok {
+		return
+	}
+	for _, li := range fc.loopList {
+		if !li.Blocks[x.Block()] {
+			continue
+		}
+		for _, b := range mc.Bindings {
+			al, ok := b.(*ssa.Alloc)
+			if !ok || li.Blocks[al.Block()] || al.Comment == "" {
+				continue
+			}
+			assigned := false
+			for blk := range li.Blocks {
+				for _, in := range blk.Instrs {
+					if st, ok := in.(*ssa.Store); ok && st.Addr == al {
+						assigned = true
+					}
+				}
+			}
+			name := fmt.Sprintf("%s:go.loopcapture(%s)#%d", fc.name, al.Comment, fc.nextCount("lc:"+al.Comment))
+			if assigned {
+				fc.assertUnmatched(name, "goroutine started in a loop captures variable "+al.Comment+", which is shared by all iterations and reassigned by the loop")
+			}
+		}
+	}
+}
+
 func (fc *FnCtx) doGo(x *ssa.Go) {
+	fc.loopCaptureCheck(x)
 	// call-site requires clauses apply to the arguments evaluated at the go statement
 	if specs := fc.siteSpecs(x); len(specs) > 0 {
 		s := fc.buildSite(x)
